@@ -18,7 +18,7 @@ import time
 from collections import Counter
 
 from common import LEAN, Driver, Report, check_proofs, proof_coverage, rng
-from gen import Cfg, G, required_version
+from gen import Cfg, G, rejected_by_design, required_version
 from recipes import B, N, U, Program, Sub, Var, compile_real, pack, to_sexp, unpack
 
 PROOF_MODULES = ["PyTealV.Proofs.C20"]
@@ -192,7 +192,8 @@ def run(tier: str) -> int:
         need = max([required_version(p.main)] + [required_version(s.body) for s in p.subs] + ([4] if p.subs else []))
         v = r.choice([2, 3, 4, 5, 6, 7, 8, 9, 10])
         opts = r.choice(option_sets(v, bool(p.subs)))
-        res, cls = judge(p, v, opts, v >= need, "random")
+        design = rejected_by_design(p.main) or any(rejected_by_design(s.body) for s in p.subs)
+        res, cls = judge(p, v, opts, v >= need and not design, "random")
         if not p.subs and cls in ("ok", "err"):
             # correspondence of outcome classes with the Lean model of code generation
             a = d.ask(f"prog pm {to_sexp(p)}")
